@@ -639,7 +639,17 @@ func execHist(ops []string, mon *Mon) []string {
 				// reference: walk from the newest entry, keep first sightings
 				var want []string
 				seen := map[string]bool{}
-				for i := len(sh.Entries) - 1; i >= 0 && len(want) < histEffLimit(n); i-- {
+				// a non-positive limit asks for "the default number": how many that is is not part of the property (the model knows
+				// the source's default, so the correspondence notices a change) - the answer must be a non-empty prefix of the
+				// distinct newest-first list
+				lim := n
+				if n <= 0 {
+					lim = len(got)
+					if lim == 0 {
+						lim = 1
+					}
+				}
+				for i := len(sh.Entries) - 1; i >= 0 && len(want) < lim; i-- {
 					if q := sh.Entries[i].Query; !seen[q] {
 						seen[q] = true
 						want = append(want, q)
@@ -656,7 +666,14 @@ func execHist(ops []string, mon *Mon) []string {
 				n := Atoi(f[1])
 				got := sh.GetTopQueries(n)
 				full := sh.GetTopQueries(len(sh.Entries) + 1)
-				histCheckTop(sh, got, full, histEffLimit(n), hit, o)
+				topLim := n
+				if n <= 0 { // the default number of rows is not part of the property: a non-empty prefix of the full ranking
+					topLim = len(got)
+					if topLim == 0 {
+						topLim = 1
+					}
+				}
+				histCheckTop(sh, got, full, topLim, hit, o)
 				if len(got) > 1 {
 					mon.Tag("top-multi")
 				}
